@@ -745,6 +745,8 @@ fn c06_table() -> LogicalTable {
                 opt_ints(&[None, Some(i64::MIN + 1), Some(i64::MAX - 1), None, Some(-1), Some(1 << 62), None, Some(0)]),
             ),
             ("z", ints(&[0, 0, 0, 0, 0, 0, 0, 0])),
+            // the most negative value itself (its negation, its quotient by -1 and its absolute value do not exist)
+            ("x", ints(&[i64::MIN, 10, -10, i64::MIN, 7, -7, 1, i64::MIN])),
         ],
     )
 }
@@ -826,8 +828,8 @@ pub fn c06_suite(tier: Tier) -> Suite {
     let mut tables = vec![c06_table()];
     let mut layouts = vec![std_layouts(8)];
     let mut cases = vec![];
-    let cols: Vec<E> = ["b", "o", "h", "m", "w", "nb", "nw", "z"].iter().map(|c| col(c)).collect();
-    let consts: Vec<E> = [0i64, 1, -1, 2, 255, 256, 65536, i64::MAX - 1, i64::MIN + 1].iter().map(|k| E::Int(*k)).collect();
+    let cols: Vec<E> = ["b", "o", "h", "m", "w", "nb", "nw", "z", "x"].iter().map(|c| col(c)).collect();
+    let consts: Vec<E> = [0i64, 1, -1, 2, 10, 255, 256, 65536, i64::MAX - 1, i64::MIN + 1].iter().map(|k| E::Int(*k)).collect();
     let mut leaves = cols.clone();
     leaves.extend(consts.clone());
     // depth 1: leaf op leaf (at least one column)
@@ -867,6 +869,7 @@ pub fn c06_suite(tier: Tier) -> Suite {
     exprs.push(E::Neg(Box::new(col("w"))));
     exprs.push(E::Neg(Box::new(col("o"))));
     exprs.push(E::Neg(Box::new(col("nw"))));
+    exprs.push(E::Neg(Box::new(col("x"))));
     for (i, e) in exprs.iter().enumerate() {
         // projection on a rotating layout (all layouts in thorough)
         for li in 0..4 {
